@@ -44,7 +44,8 @@ ScalarKinds == {"string", "key", "bool", "int32", "int64", "uint32", "uint64", "
 LeafKinds   == ScalarKinds \cup {"enum"}
 AllKinds    == LeafKinds \cup {"object", "oneof", "anyj5", "anypb"}
 AllCards    == {"one", "opt", "arr", "map"}
-AllPositions == {"top", "nested", "arrelem", "mapval", "arm", "armdirect", "flat", "exposed", "expdirect", "rootoneof"}
+\* "flat2": a flattened object inside a flattened object (both are inlined into the root)
+AllPositions == {"top", "nested", "arrelem", "mapval", "arm", "armdirect", "flat", "flat2", "exposed", "expdirect", "rootoneof"}
 
 (* ---------------- the representation table (README "Scalar Types") ---------------- *)
 
@@ -80,9 +81,10 @@ GoodAtoms(kind) ==
       [] kind = "string"  -> {"zero", "ascii", "esc", "ctrl", "nonbmp", "html"}
       [] kind = "key"     -> {"zero", "id62", "uuid"}
       [] kind = "bool"    -> {"false", "true"}
-      [] kind = "bytes"   -> {"zero", "len1", "len2", "len3", "len4"}
+      \* len257 / len1000: longer than any buffer an encoder might chunk by (256, 512); 257 = 1 mod 3, 1000 = 1 mod 3
+      [] kind = "bytes"   -> {"zero", "len1", "len2", "len3", "len4", "len257", "len1000"}
       [] kind = "timestamp" -> {"epoch", "nanos", "pre1970", "y0001", "y9999"}
-      [] kind = "date"    -> {"d0001", "d0999", "leap", "d9999"}
+      [] kind = "date"    -> {"d0001", "d0999", "leap", "leap400", "d9999"}      \* leap400: 2000-02-29 (a century that IS a leap year)
       [] kind = "decimal" -> {"zero", "neg", "big", "small", "exp", "int"}
       [] kind = "enum"    -> {"unspec", "red", "green"}
       [] OTHER -> {}
@@ -170,6 +172,7 @@ RootSch(kind, card, pos) ==
       [] pos = "arm"       -> ObjS("Root", <<Sib, P("choice", "one", OneofS("Choice", <<P("armA", "one", Box(kind, card)), P("armB", "one", Other)>>))>>)
       [] pos = "armdirect" -> ObjS("Root", <<Sib, P("choice", "one", OneofS("Choice", <<FocusProp(kind, "one"), P("armB", "one", Other)>>))>>)
       [] pos = "flat"      -> ObjS("Root", <<Sib, PFlat("flat", Box(kind, card))>>)
+      [] pos = "flat2"     -> ObjS("Root", <<Sib, PFlat("outer", ObjS("Mid", <<P("midTag", "one", LeafS("string")), PFlat("flat", Box(kind, card))>>))>>)
       [] pos = "exposed"   -> ObjS("Root", <<Sib, PExp("pick", OneofS("PickX", <<P("armA", "one", Box(kind, card)), P("alt", "one", LeafS("string"))>>))>>)
       [] pos = "expdirect" -> ObjS("Root", <<Sib, PExp("pick", OneofS("PickX", <<FocusProp(kind, "one"), P("alt", "one", LeafS("string"))>>))>>)
       [] pos = "rootoneof" -> OneofS("Root", <<P("armA", "one", Box(kind, card)), P("armB", "one", Other)>>)
@@ -224,6 +227,7 @@ RootVal(pos, sibset, tagged, fm) ==
       [] pos = "arm"       -> ObjV(SibM(sibset) \o <<KV("choice", OneofV(<<KV("armA", BoxV(tagged, fm))>>))>>)
       [] pos = "armdirect" -> ObjV(SibM(sibset) \o <<KV("choice", OneofV(fm))>>)
       [] pos = "flat"      -> ObjV(SibM(sibset) \o <<KV("flat", BoxV(tagged, fm))>>)
+      [] pos = "flat2"     -> ObjV(SibM(sibset) \o <<KV("outer", ObjV(<<KV("midTag", Atom("ascii")), KV("flat", BoxV(tagged, fm))>>))>>)
       [] pos = "exposed"   -> ObjV(SibM(sibset) \o <<KV("pick", OneofV(<<KV("armA", BoxV(tagged, fm))>>))>>)
       [] pos = "expdirect" -> ObjV(SibM(sibset) \o (IF fm = <<>> THEN <<>> ELSE <<KV("pick", OneofV(fm))>>))
       [] pos = "rootoneof" -> OneofV(<<KV("armA", BoxV(tagged, fm))>>)
@@ -260,7 +264,9 @@ NormMembers(props, m, parentT, i) ==
                     ELSE <<KV(p.name, nv)>> \o rest
 
 (* ---------------- Enc: value -> JSON tree, parameterised by a spelling / fault record ---------------- *)
-(* S = [fk, form, rev, nulls, rep, replvl, repnode, uk, of, ofn]                                        *)
+(* S = [fk, form, rev, nulls, rep, replvl, repnode, uk, of, ofn, fkey]                                  *)
+(*   fkey     the key the focus member is written under, when it is not its JSON name ("" = the JSON     *)
+(*            name): the proto spelling foo_bar or FooBar is an unknown key like any other               *)
 (*   fk/form  the spelling used for leaves of kind fk (others canonical)                                 *)
 (*   rev      members of every object reversed;  nulls  explicit null for every absent member            *)
 (*   rep      TRUE: the focus element (replvl = "elem") or the whole focus field ("field") is            *)
@@ -269,7 +275,7 @@ NormMembers(props, m, parentT, i) ==
 (*   of, ofn  oneof fault "multi" | "mismatch" | "typenum" applied to the oneof type ofn ("" = none)     *)
 
 S0(kind) == [fk |-> kind, form |-> CanonForm(kind), rev |-> FALSE, nulls |-> FALSE, rep |-> FALSE, replvl |-> "",
-             repnode |-> JNull, uk |-> "", of |-> "", ofn |-> ""]
+             repnode |-> JNull, uk |-> "", of |-> "", ofn |-> "", fkey |-> ""]
 
 FormFor(S, kind) == IF S.fk = kind THEN S.form ELSE CanonForm(kind)
 Ord(S, m) == IF S.rev THEN Reverse(m) ELSE m
@@ -322,7 +328,7 @@ EncMembers(props, m, parentT, S, i) ==
             ELSE IF p.card \in {"one", "opt"} /\ IsZeroLeaf(p.sch, x[1]) /\ ~HasPresence(p, parentT) THEN absent \o rest
             ELSE IF p.card = "arr" /\ x[1].s = <<>> THEN absent \o rest
             ELSE IF p.card = "map" /\ x[1].m = <<>> THEN absent \o rest
-            ELSE <<KV(p.name, EncCard(p, x[1], S))>> \o rest
+            ELSE <<KV(IF p.name = FocusName /\ S.fkey # "" THEN S.fkey ELSE p.name, EncCard(p, x[1], S))>> \o rest
 
 (* ---------------- Dec: JSON tree -> value or Reject ---------------- *)
 
@@ -452,7 +458,12 @@ ElemFaults(kind) ==
       [] kind = "date" -> ShapeFaults \cup {BoolFault, NumFault}
             \cup { [cls |-> "invalid-date:text", node |-> Bad(kind, "bad", "str", "canon")],
                    [cls |-> "invalid-date:parts", node |-> Bad(kind, "badparts", "str", "canon")],
-                   [cls |-> "invalid-date:calendar", node |-> Bad(kind, "badcal", "str", "canon")] }
+                   [cls |-> "invalid-date:calendar", node |-> Bad(kind, "badcal", "str", "canon")],
+                   \* 29 February of a year divisible by 100 but not by 400, and of a common year; month 13; day 0
+                   [cls |-> "invalid-date:century-leap", node |-> Bad(kind, "badleap100", "str", "canon")],
+                   [cls |-> "invalid-date:common-leap", node |-> Bad(kind, "badleap", "str", "canon")],
+                   [cls |-> "invalid-date:month13", node |-> Bad(kind, "badmonth", "str", "canon")],
+                   [cls |-> "invalid-date:day0", node |-> Bad(kind, "badday0", "str", "canon")] }
       [] kind = "decimal" -> ShapeFaults \cup {BoolFault}
             \cup { [cls |-> "invalid-decimal:dots", node |-> Bad(kind, "bad", "str", "quoted")],
                    [cls |-> "invalid-decimal:junk", node |-> Bad(kind, "junk", "str", "quoted")],
@@ -532,7 +543,7 @@ EndValue ==
     \* a fault needs a member to sit in: a zero value without presence is omitted from the document
     /\ (Mode = "fault" => ~(card = "one" /\ kind \in LeafKinds /\ pos \notin {"armdirect", "expdirect"} /\ elems[1].a \in ZeroAtoms(kind)))
     /\ \E tg \in BOOLEAN :
-        /\ (~tg => (elems = <<>> \/ pos = "flat") /\ pos \notin {"top", "armdirect", "expdirect"} /\ Mode = "val")
+        /\ (~tg => (elems = <<>> \/ pos \in {"flat", "flat2"}) /\ pos \notin {"top", "armdirect", "expdirect"} /\ Mode = "val")
         /\ tagged' = tg
     /\ phase' = (CASE Mode = "val" -> "done" [] Mode = "spell" -> "spell" [] Mode = "fault" -> "fault" [] Mode = "query" -> "spell")
     /\ UNCHANGED <<kind, card, pos, anyc, elems, lbls, wfonly, sp, ws, fcls>>
@@ -555,6 +566,10 @@ InjectFault ==
             /\ sp' = [S0(kind) EXCEPT !.rep = TRUE, !.replvl = "field", !.repnode = f.node] /\ fcls' = f.cls
        \/ \E tn \in ObjTypes(kind, pos, TRUE, lbls[1]) \cup OneofTypes(kind, pos, TRUE, lbls[1]) :
             /\ sp' = [S0(kind) EXCEPT !.uk = tn] /\ fcls' = "unknownkey:" \o tn
+       \* the focus member under another spelling of its name (the proto field name, an upper-camel form): an unknown key
+       \/ \E k \in {"foo_bar", "FooBar", "foo-bar"} :
+            /\ pos \notin {"armdirect", "expdirect"}          \* there the focus is an arm of a oneof: its key is the "!type"
+            /\ sp' = [S0(kind) EXCEPT !.fkey = k] /\ fcls' = "unknownkey:spelling:" \o k
        \* the oneof faults are injected with the members in canonical order ("!type" first) and reversed ("!type" after the
        \* key it contradicts): a decoder that checks "!type" while reading keys sees them in document order
        \/ \E tn \in OneofTypes(kind, pos, TRUE, lbls[1]), of \in {"multi", "mismatch", "typenum"}, rv \in BOOLEAN :
@@ -577,7 +592,7 @@ Doc == EncNode(Schema, Value, sp)                     \* the document to decode 
 DecDoc == DecNode(Schema, Doc, anyc)
 Label == IF lbls = <<>> THEN "unset" ELSE IF Len(lbls) = 1 THEN lbls[1] ELSE lbls[1] \o "+" \o lbls[2]
 
-QueryPath == CASE pos = "top" -> FocusName [] pos = "flat" -> FocusName [] pos = "nested" -> "box." \o FocusName
+QueryPath == CASE pos = "top" -> FocusName [] pos \in {"flat", "flat2"} -> FocusName [] pos = "nested" -> "box." \o FocusName
                [] pos = "arm" -> "choice.armA." \o FocusName [] pos = "exposed" -> "pick.armA." \o FocusName [] OTHER -> FocusName
 Query == [i \in 1..Len(elems) |-> [path |-> QueryPath, kind |-> kind, a |-> elems[i].a, f |-> sp.form]]
 QueryVal == RootVal(pos, FALSE, FALSE, FocusMember(card, elems))
